@@ -250,11 +250,41 @@ func opcodeUnit(drawing bool, op byte, thorough bool) Unit {
 					break
 				}
 			}
-			// (iii) single-operand instructions: every 1-byte payload
+			// (iii) single-operand instructions: every 1-byte payload, and every 2-byte payload
+			// for one opcode of each number kind (real, coordinate, zero-to-one, H coordinate)
 			if k == 1 {
 				for v := uint32(0); v < 128; v++ {
 					if !emit(AppendNum(body[:0], 1, v), false) {
 						return
+					}
+				}
+				if (!drawing && (op == 0xa8 || op == 0xb0 || op == 0xb8)) || (drawing && op == 0xe6) || thorough {
+					for v := uint32(0); v < 1<<14; v++ {
+						if !emit(AppendNum(body[:0], 2, v), false) {
+							return
+						}
+					}
+				}
+			}
+			// arc angle: every 1- and 2-byte zero-to-one payload
+			if drawing && (op == 0xc0 || op == 0xd0) {
+				for w := 1; w <= 2; w++ {
+					lim := uint32(128)
+					if w == 2 {
+						lim = 1 << 14
+					}
+					for v := uint32(0); v < lim; v++ {
+						body = body[:0]
+						for i := 0; i < 6; i++ {
+							if i == 2 {
+								body = AppendNum(body, w, v)
+							} else {
+								body = AppendNum(body, 1, 65+uint32(i))
+							}
+						}
+						if !emit(body, false) {
+							return
+						}
 					}
 				}
 			}
